@@ -29,9 +29,9 @@ ID = "C12"
 PROP = {
     "level": "exploration",
     "level_text": ("Exploration of histories, exhaustive over a bounded space: all operation sequences of length <= 4 (quick) / <= 5 "
-                   "(thorough) over a 12-symbol alphabet for Clipper64 and ClipperD, a 13-symbol alphabet for ClipperOffset and an "
-                   "8-symbol alphabet for RectClip64/RectClipLines64, on three path bundles (general position, rectilinear-degenerate, "
-                   "seeded), are executed and every Execute is compared with a freshly constructed object given the same inputs and "
+                   "(thorough) over a 14-symbol alphabet for Clipper64 and ClipperD (adds, option toggles, four real Execute forms, Execute(NoClip) into paths and into a tree, Clear), a 13-symbol alphabet for ClipperOffset and an "
+                   "8-symbol alphabet for RectClip64/RectClipLines64, on four path bundles (general position, rectilinear-degenerate, "
+                   "seeded, seeded scanline-sensitive), are executed and every Execute is compared with a freshly constructed object given the same inputs and "
                    "options; plus random histories of 50-200 operations, two clippers alternating on a shared "
                    "ReuseableDataContainer64, permutations of distant paths/groups in one offset call against their stand-alone "
                    "results, and two processes compared bit for bit."),
@@ -42,21 +42,21 @@ PROP = {
     "assumptions": ["comparison is exact (ordered paths, open paths, tree shape, return value; bitwise for doubles)"],
     "exhaustive": True,
     "exhaustive_note": "exhaustive over the bounded history spaces (modes c64, cd, off, rect); modes long/shared/indep are random",
-    "floor": _q(60000, 800000),
+    "floor": _q(150000, 1500000),
     "must_count": _q(["executions_compared_c64", "executions_compared_cd", "executions_compared_off", "executions_compared_rect",
                       "executions_compared_shared", "executions_compared_indep", "process_twins_compared"],
                      ["executions_compared_c64", "executions_compared_cd", "executions_compared_off", "executions_compared_rect",
                       "executions_compared_shared", "executions_compared_indep", "process_twins_compared"]),
     "post": _post,
     "jobs": [
-        {"mon": "mon_c12", "cfg": "plain", "cases": _q(3 * _nseq(12, 4), 3 * _nseq(12, 4)), "args": ["--mode", "c64", "--maxlen", "5"], "twin": "c64"},
-        {"mon": "mon_c12", "cfg": "plain", "cases": _q(3 * _nseq(12, 4), 3 * _nseq(12, 4)), "args": ["--mode", "c64", "--maxlen", "5"], "twin": "c64"},
-        {"mon": "mon_c12", "cfg": "plain", "cases": _q(0, 3 * _nseq(12, 5)), "args": ["--mode", "c64", "--maxlen", "5"]},
-        {"mon": "mon_c12", "cfg": "plain", "cases": _q(3 * _nseq(12, 4), 3 * _nseq(12, 5)), "args": ["--mode", "cd", "--maxlen", "5"]},
-        {"mon": "mon_c12", "cfg": "plain", "cases": _q(3 * _nseq(13, 4), 3 * _nseq(13, 5)), "args": ["--mode", "off", "--maxlen", "5"]},
-        {"mon": "mon_c12", "cfg": "plain", "cases": _q(3 * _nseq(8, 4), 3 * _nseq(8, 5)), "args": ["--mode", "rect", "--maxlen", "5"]},
-        {"mon": "mon_c12", "cfg": "plain", "cases": _q(800, 800), "args": ["--mode", "long"], "twin": "long"},
-        {"mon": "mon_c12", "cfg": "plain", "cases": _q(800, 800), "args": ["--mode", "long"], "twin": "long"},
+        {"mon": "mon_c12", "cfg": "plain", "cases": _q(4 * _nseq(14, 4), 4 * _nseq(14, 4)), "args": ["--mode", "c64", "--maxlen", "5"], "twin": "c64"},
+        {"mon": "mon_c12", "cfg": "plain", "cases": _q(4 * _nseq(14, 4), 4 * _nseq(14, 4)), "args": ["--mode", "c64", "--maxlen", "5"], "twin": "c64"},
+        {"mon": "mon_c12", "cfg": "plain", "cases": _q(0, 4 * _nseq(14, 5)), "args": ["--mode", "c64", "--maxlen", "5"]},
+        {"mon": "mon_c12", "cfg": "plain", "cases": _q(4 * _nseq(14, 4), 4 * _nseq(14, 5)), "args": ["--mode", "cd", "--maxlen", "5"]},
+        {"mon": "mon_c12", "cfg": "plain", "cases": _q(4 * _nseq(13, 4), 4 * _nseq(13, 5)), "args": ["--mode", "off", "--maxlen", "5"]},
+        {"mon": "mon_c12", "cfg": "plain", "cases": _q(4 * _nseq(8, 4), 4 * _nseq(8, 5)), "args": ["--mode", "rect", "--maxlen", "5"]},
+        {"mon": "mon_c12", "cfg": "plain", "cases": _q(6000, 6000), "args": ["--mode", "long"], "twin": "long"},
+        {"mon": "mon_c12", "cfg": "plain", "cases": _q(6000, 6000), "args": ["--mode", "long"], "twin": "long"},
         {"mon": "mon_c12", "cfg": "plain", "cases": _q(0, 40000), "args": ["--mode", "long"], "seed_off": 3},
         {"mon": "mon_c12", "cfg": "plain", "cases": _q(3000, 100000), "args": ["--mode", "shared"]},
         {"mon": "mon_c12", "cfg": "plain", "cases": _q(20000, 600000), "args": ["--mode", "indep"]},
